@@ -184,10 +184,10 @@ def run(ctx):
     srcs = docs.repo_sources()
     if ctx.quick():
         d2 = docs.hash_slice(docs.dn(2, docs.CORE_PREFIX, docs.CORE_BODY), 3000)
-        pool = docs.sample(ctx.rng, res, 300) + docs.sample(ctx.rng, srcs, 800) + docs.sample(ctx.rng, list(docs.d1()), 300) + docs.sample(ctx.rng, d2, 200) + docs.sample(ctx.rng, docs.families(), 200)
+        pool = docs.sample(ctx.rng, res, 300) + docs.sample(ctx.rng, srcs, 800) + docs.sample(ctx.rng, list(docs.d1()), 300) + docs.sample(ctx.rng, d2, 200) + docs.sample(ctx.rng, docs.families() + docs.link_edges(), 300)
         singles = docs.sample(ctx.rng, ids, 12)
     else:
-        pool = res + srcs + docs.families() + list(docs.d1()) + docs.hash_slice(docs.dn(2, docs.CORE_PREFIX, docs.CORE_BODY), 3000)
+        pool = res + srcs + docs.families() + docs.link_edges() + list(docs.d1()) + docs.hash_slice(docs.dn(2, docs.CORE_PREFIX, docs.CORE_BODY), 3000)
         singles = ids
     pool = list(dict.fromkeys(pool))
     configs = [("default", []), ("all-enabled", ["-e", ",".join(ids)])]
